@@ -14,7 +14,7 @@ from common import hexs, Broken
 PROOF_MODULES = {"C12": ["Glas.Props.C12", "Glas.Audit.C12"]}
 
 
-def gen_module(rng, nfun, late_ty):
+def gen_module(rng, nfun, late_ty, tail=0):
     """a monomorphic module: a stable prefix of functions whose types depend on `late`, defined at
     the end and edited between versions"""
     out = ["import gleam/int\n" if False else ""]
@@ -39,6 +39,9 @@ def gen_module(rng, nfun, late_ty):
             out.append(f"pub fn f{i}(a: Int) {{\n  let g = fn(x) {{ x + a + {i} }}\n  let t = #(a, \"s{i}\", g(a))\n  t.2\n}}\n\n")
     out.append(f"pub fn uses() {{\n  let a = early()\n  let b = early2(1)\n  #(a, b)\n}}\n\n")
     out.append(late_ty)
+    # a long run of tokens that need no analysis at the end of the file: a whole-file query spends its last
+    # milliseconds there, past its last step of the database - a change that arrives then cannot cancel it any more
+    out.append("// trailing commentary\n" * tail)
     return "".join(out)
 
 
@@ -61,7 +64,8 @@ def make_case(rng, nfun, nver):
     lates = rng.sample(LATES, min(nver, len(LATES)))
     while len(lates) < nver:
         lates.append(rng.choice(LATES))
-    texts = [gen_module(random.Random(seedm), nfun, l) for l in lates]
+    tail = rng.choice([0, 30000, 30000]) if nfun < 1000 else 0
+    texts = [gen_module(random.Random(seedm), nfun, l, tail) for l in lates]
     # all versions share the prefix up to the definition of `late`
     m1 = "import m0.{early2}\n\npub fn user() {\n  let v = m0.early()\n  let w = m0.uses()\n  #(v, w)\n}\n\npub fn user2() {\n  early2(2)\n}\n"
     files = [("/w/p/src/m0.gleam", texts[0]), ("/w/p/src/m1.gleam", m1), ("/w/p/gleam.toml", 'name = "p"\n')]
